@@ -337,7 +337,9 @@ for k, (op, arg) in enumerate(CFG['ops']):
         sames.append(F is f)
 profile.write_config.update(CFG['wc'])
 profile.show_config.update(CFG.get('show') or {})
-print('OBS ' + json.dumps(dict(sames=sames, impl=line_profiler.__file__, argv=sys.argv)))
+# the observation goes through a file: the program's stdout may have any encoding (PYTHONIOENCODING)
+with open('c14_observation.json', 'w', encoding='utf-8') as _fh:
+    json.dump(dict(sames=sames, impl=line_profiler.__file__, argv=sys.argv), _fh)
 '''
 
 
@@ -356,19 +358,22 @@ def run_sub_ops(case, tmp):
         if case['env'] is not None:
             env['LINE_PROFILE'] = case['env']
         p = subprocess.run([sys.executable, 'prog.py'] + case['args'], cwd=d, env=env,
-                           stdout=subprocess.PIPE, stderr=subprocess.PIPE, text=True, timeout=120)
+                           stdout=subprocess.PIPE, stderr=subprocess.PIPE, timeout=120)
+        enc = (case.get('ioenc') or 'utf-8').split(':')[0]
+        out_text = p.stdout.decode(enc, errors='replace')        # the child's stdio is read in the child's own encoding
+        err_text = p.stderr.decode(enc, errors='replace')
         obs = None
-        for line in p.stdout.splitlines():
-            if line.startswith('OBS '):
-                obs = json.loads(line[4:])
-        names = [n for n in list_files(d) if n != 'prog.py' and not n.startswith('__pycache__')]
+        if os.path.exists(os.path.join(d, 'c14_observation.json')):
+            with open(os.path.join(d, 'c14_observation.json'), encoding='utf-8') as fh:
+                obs = json.load(fh)
+        names = [n for n in list_files(d) if n not in ('prog.py', 'c14_observation.json') and not n.startswith('__pycache__')]
         prefix = 'profile_output'
         for op, arg in case['ops']:
             if op == 'enable' and arg is not None:
                 prefix = arg
-        seen, ts = classify_outputs(prefix, names, p.stdout)
+        seen, ts = classify_outputs(prefix, names, out_text)
         return dict(rc=p.returncode, obs=obs, seen=seen, ts=ts, prefix=prefix,
-                    traceback=('Traceback' in p.stderr or 'Exception ignored' in p.stderr), stderr=p.stderr[-400:])
+                    traceback=('Traceback' in err_text or 'Exception ignored' in err_text), stderr=err_text[-400:])
     finally:
         shutil.rmtree(d, ignore_errors=True)
 
